@@ -29,12 +29,69 @@ const (
 	trigBracketSpc  = "pattern-space-in-bracket-expression"     // pattern holds a space inside [...]
 )
 
+// Coordinates added with the re-track clause ("a plain track of what is tracked already
+// changes nothing") and the parent-covers focus cases.
+const (
+	// pattern "/x" typed in the top-level directory (re-tracked after --lockable)
+	trigAnchoredTop = "pattern-leading-slash-at-toplevel"
+	// a --filename name of the case starts with '"' and holds no second one; its line makes
+	// git-lfs unable to read the file back
+	trigLoneDquote = "filename-lone-leading-dquote"
+	// invoked from d while the top-level file holds the LFS line d/P (Own parent-covers*):
+	// git-lfs consults that line's lockable state first
+	trigParentCover = "preexisting-toplevel-lfs-line-covers-pattern"
+)
+
+// How the working directory of every `git lfs` command of a case is reached. The process's
+// cwd is always the same directory; what differs is the *logical* path in $PWD (which Go's
+// os.Getwd, and therefore git-lfs, prefers when it names the current directory).
+const (
+	cwdPhysical   = "physical"                 // physical path, no PWD in the environment (as before this dimension existed)
+	cwdRepoParent = "symlink-to-repo-parent"   // L -> parent of the repository;       cwd = L/r[/d]
+	cwdRepo       = "symlink-to-repo"          // L -> the repository;                 cwd = L[/d]
+	cwdSubParent  = "symlink-to-subdir-parent" // L -> parent of the sub-directory d;  cwd = L/base(d)   (d has >= 2 components)
+)
+
+var symlinkCwds = []string{cwdRepoParent, cwdRepo, cwdSubParent}
+var allCwds = []string{cwdPhysical, cwdRepoParent, cwdRepo, cwdSubParent}
+var nestedDirs = []string{"a/b c/d", "deep/er/still"}
+
+// cwdTrigger: Sig.Trigger of a violation that has no argument-intrinsic known coordinate,
+// observed in a case whose working directory is reached through a symlink.
+func cwdTrigger(kind string) string { return "cwd-via-" + kind }
+
+// settleCwd makes (kind, dir) consistent: the sub-directory's-parent variant needs a nested
+// invocation directory (with a single component the parent IS the repository, i.e. the
+// symlink-to-repo variant), and there is no sub-directory when invoked from the root.
+func settleCwd(want, dir string, salt int) (string, string) {
+	if want != cwdSubParent {
+		return want, dir
+	}
+	if dir == "" {
+		return []string{cwdRepoParent, cwdRepo}[salt%2], dir
+	}
+	if !strings.Contains(dir, "/") {
+		dir = nestedDirs[salt%len(nestedDirs)]
+	}
+	return want, dir
+}
+
+// loneLeadingDquote: coordinate of trigLoneDquote (the "word"tail shape is the hazard trigDquote).
+func loneLeadingDquote(a Arg) bool {
+	return a.Mode == "filename" && a.Hazard == "" && strings.HasPrefix(a.Text, "\"") && strings.Count(a.Text, "\"") == 1
+}
+
+// anchoredAtTop: coordinate of trigAnchoredTop.
+func anchoredAtTop(c Case, a Arg) bool {
+	return a.Mode == "pattern" && strings.HasPrefix(a.Text, "/") && c.Dir == ""
+}
+
 type Arg struct {
 	Mode   string   `json:"mode"` // "pattern" | "filename"
 	Text   string   `json:"text"` // argument as typed, relative to the invocation directory
 	Hazard string   `json:"hazard,omitempty"`
 	Feats  []string `json:"features"`
-	Own    string   `json:"own_line,omitempty"` // pre-existing line with the same pattern text: k1-text | k2-lockable | k3-foreign-filter (file of the invocation directory), parent-* (top-level file while invoked from a sub-directory)
+	Own    string   `json:"own_line,omitempty"` // pre-existing line with the same pattern text: k1-text | k2-lockable | k3-foreign-filter (file of the invocation directory), parent-* (top-level file while invoked from a sub-directory); parent-covers[-lockable]: the top-level file holds the complete LFS line for <invocation dir>/<pattern>
 }
 
 type Step struct {
@@ -45,7 +102,8 @@ type Step struct {
 type Case struct {
 	Index   int      `json:"case_index"`
 	Kind    string   `json:"kind"`
-	Dir     string   `json:"invocation_dir"` // "" = repository root
+	Dir     string   `json:"invocation_dir"`  // "" = repository root
+	Cwd     string   `json:"cwd_reached_via"` // cwdPhysical | cwdRepoParent | cwdRepo | cwdSubParent
 	PreRoot *string  `json:"preexisting_root_gitattributes"`
 	PreDir  *string  `json:"preexisting_dir_gitattributes"` // only when Dir != ""
 	PreKind string   `json:"preexisting_variant"`
@@ -909,6 +967,23 @@ var kindTable = []string{
 	"indexed", "indexed", "indexed", "indexed", // 4 of 26 = 15 %
 }
 
+// Focus cases (index >= focusBase; appended to the list, the cases below focusBase are what
+// they were before the working-directory dimension existed): fixed opening moves that make
+// "the argument is already tracked" certain, each run under all four ways of reaching the
+// working directory (j = index - focusBase: kind = j % 3, cwd = (j / 3) % 4).
+//
+//	lockable-then-plain : track --lockable A; track A; track A [; --not-lockable A; track A | ; untrack A; track --lockable A; track A]
+//	parent-covers       : from a sub-directory d, `track P` (twice) while the TOP-LEVEL file already holds
+//	                      "d/P filter=lfs diff=lfs merge=lfs -text[ lockable]". P always contains a '/', so
+//	                      that "d/P" read at the top level and "P" read in d denote the same paths for Git
+//	                      (a pattern without '/' matches at any depth below d, "d/P" only in d itself:
+//	                      that is a different question, not generated here).
+//	repeat-pairs        : op1 A; op1 A; op2 A; op2 A with op1 != op2 from {track, --lockable, --not-lockable}
+const focusBase = 1 << 20
+
+var focusKinds = []string{"lockable-then-plain", "parent-covers", "repeat-pairs"}
+var coverDirs = []string{"sub", "deep/er/still", "dïr"}
+
 var idxPreKinds = []string{"others", "big", "crlf", "mixed-eol-nofinalnl", "big", "macros"}
 var forbiddenPatterns = []string{".git*", "*", "*.gitattributes", ".gitattributes", "**/.gitattributes", ".git*", "*ttributes", ".gitattributes"}
 
@@ -922,8 +997,21 @@ func seqLen(r *rand.Rand, idx int) int {
 
 func genCase(seed int64, idx int) Case {
 	r := rand.New(rand.NewSource(seed*1000003 + int64(idx)*7919 + 17))
-	c := Case{Index: idx, Kind: kindTable[idx%len(kindTable)]}
+	c := Case{Index: idx}
+	focus, j := idx >= focusBase, idx-focusBase
+	if focus {
+		c.Kind = focusKinds[j%len(focusKinds)]
+	} else {
+		c.Kind = kindTable[idx%len(kindTable)]
+	}
 	c.Dir = dirs[r.Intn(len(dirs))]
+	var fixed []Step // opening moves of a focus case
+	one := func(ops ...string) (st []Step) {
+		for _, o := range ops {
+			st = append(st, Step{Op: o, Args: []int{0}})
+		}
+		return
+	}
 	c.PreKind = preKinds[(idx/3+r.Intn(len(preKinds)))%len(preKinds)]
 	length := seqLen(r, idx)
 	trackOnly := false
@@ -1020,6 +1108,45 @@ func genCase(seed int64, idx int) Case {
 			}
 			c.Args = []Arg{mk(mode, fp, ""), mk("pattern", genPattern(r, r.Intn(2) == 0, false), "")}
 		}
+	case "lockable-then-plain":
+		if (j/12)%4 == 3 {
+			c.Args = []Arg{mk("filename", withSub(genFilename(r, focusClean)), "")}
+		} else {
+			c.Args = []Arg{mk("pattern", genPattern(r, false, false), "")}
+		}
+		fixed = one("track-lockable", "track", "track")
+		switch (j / 12) % 3 {
+		case 1:
+			fixed = append(fixed, one("track-not-lockable", "track")...)
+		case 2:
+			fixed = append(fixed, one("untrack", "track-lockable", "track")...)
+		}
+		length = len(fixed) + r.Intn(2)
+	case "parent-covers":
+		c.Dir = coverDirs[(j/12+r.Intn(len(coverDirs)))%len(coverDirs)]
+		p := "assets/*.bin"
+		for try := 0; try < 20; try++ {
+			if q := genPattern(r, false, false); strings.Contains(q, "/") {
+				p = q
+				break
+			}
+		}
+		a := mk("pattern", p, "")
+		a.Own = []string{"parent-covers", "parent-covers-lockable"}[(j/12)%2]
+		c.Args = []Arg{a}
+		fixed = one("track", "track")
+		length = len(fixed) + r.Intn(3)
+	case "repeat-pairs":
+		if (j/12)%3 == 2 {
+			c.Args = []Arg{mk("filename", withSub(genFilename(r, focusClean)), "")}
+		} else {
+			c.Args = []Arg{mk("pattern", genPattern(r, (j/12)%2 == 1, false), "")}
+		}
+		ops := []string{"track", "track-lockable", "track-not-lockable"}
+		o1 := r.Intn(3)
+		o2 := (o1 + 1 + r.Intn(2)) % 3
+		fixed = one(ops[o1], ops[o1], ops[o2], ops[o2])
+		length = len(fixed) + r.Intn(2)
 	case "hazard":
 		hz := hazards[(idx/len(kindTable))%len(hazards)]
 		n := genHazardName(r, hz)
@@ -1056,6 +1183,22 @@ func genCase(seed int64, idx int) Case {
 		}
 		c.Args = []Arg{a}
 	}
+	// ---- how the working directory is reached: one case in three of the original list (3 is
+	// coprime to len(kindTable)), every focus case according to its index. No random draw is
+	// spent on it, so the cases that keep the physical path are exactly what they were.
+	c.Cwd = cwdPhysical
+	if focus {
+		c.Cwd = allCwds[(j/3)%len(allCwds)]
+		if c.Cwd == cwdSubParent {
+			if c.Kind == "parent-covers" {
+				c.Dir = "deep/er/still"
+			} else if c.Dir == "" || !strings.Contains(c.Dir, "/") {
+				c.Dir = nestedDirs[(j/12)%len(nestedDirs)]
+			}
+		}
+	} else if idx%3 == 1 {
+		c.Cwd, c.Dir = settleCwd(symlinkCwds[(idx/3)%len(symlinkCwds)], c.Dir, idx/9)
+	}
 	own := ""
 	if c.Args[0].Own != "" {
 		switch c.Args[0].Own {
@@ -1075,6 +1218,10 @@ func genCase(seed int64, idx int) Case {
 		parentOwn = c.Args[0].Text + " filter=foo"
 	case "parent-text":
 		parentOwn = c.Args[0].Text + " text myattr=parent"
+	case "parent-covers":
+		parentOwn = c.Dir + "/" + strings.TrimPrefix(c.Args[0].Text, "/") + " filter=lfs diff=lfs merge=lfs -text"
+	case "parent-covers-lockable":
+		parentOwn = c.Dir + "/" + strings.TrimPrefix(c.Args[0].Text, "/") + " filter=lfs diff=lfs merge=lfs -text lockable"
 	}
 	nonl := idx%7 == 3 // 1 case in 7 (7 is coprime to len(kindTable): every kind gets its share)
 	if nonl {
@@ -1131,6 +1278,9 @@ func genCase(seed int64, idx int) Case {
 		same = false // one argument per command: a refused pattern then always shows in the exit status
 	}
 	c.Steps = genSteps(r, len(c.Args), same, length, trackOnly)
+	if fixed != nil {
+		copy(c.Steps, fixed) // length >= len(fixed); the tail stays random
+	}
 	c.U = buildUniverse(r, &c)
 	if c.Indexed != "" {
 		inDir := func(rel string) string {
@@ -1183,6 +1333,15 @@ func (c Case) class() string {
 		own += "/indexed-state=" + c.Indexed
 		if c.Commit {
 			own += "+committed"
+		}
+	}
+	if c.Cwd != "" && c.Cwd != cwdPhysical {
+		own += "/cwd=" + c.Cwd
+	}
+	if c.Index >= focusBase {
+		own += "/focus=" + c.Kind
+		if c.Cwd == cwdPhysical {
+			own += "/cwd=" + c.Cwd
 		}
 	}
 	return fmt.Sprintf("%s/%s/dir=%s/pre=%s%s", strings.Join(modes, "+"), strings.Join(feats, "|"), dirClass(c.Dir), c.PreKind, own)
